@@ -83,21 +83,68 @@ def line_budget(n):
             _state["max"] = _state["count"]
 
 
+# ---------------------------------------------------------------------------
+# wall-clock backstop
+#
+# The alarm handler raises WallTimeout ONLY while the frame of `_protected` is on the
+# interrupted stack.  Ticks that arrive anywhere else (before the call, after it returned,
+# while the result is being handled, inside this module's own bookkeeping, in the pool's
+# task loop) are ignored, so a late or repeated tick can never escape the protected call.
+# The alarm repeats every 50 ms once due, because a tick that lands inside a __del__ or an
+# except-all is swallowed by the interpreter ("Exception ignored in ...").
+
+_handler_installed = [False]
+
+
+def _protected(fn):
+    return fn()
+
+
+_PROTECTED_CODE = _protected.__code__
+
+
 def _alarm(signum, frame):
-    raise WallTimeout()
+    f = frame
+    while f is not None:
+        code = f.f_code
+        if code is _ALARM_CODE[0]:
+            return           # a tick interrupting this handler itself
+        if code is _PROTECTED_CODE:
+            raise WallTimeout()
+        f = f.f_back
+    return
+
+
+_ALARM_CODE = [_alarm.__code__]
+
+
+def run_limited(fn, seconds):
+    """Run fn() with a wall-clock limit.  Returns ("ok", value) | ("exc", exception) |
+    ("timeout", None).  RecursionError counts as an exception."""
+    if not _handler_installed[0]:
+        signal.signal(signal.SIGALRM, _alarm)
+        _handler_installed[0] = True
+    signal.setitimer(signal.ITIMER_REAL, seconds, 0.05)
+    try:
+        try:
+            return ("ok", _protected(fn))
+        except WallTimeout:
+            return ("timeout", None)
+        except BudgetExceeded:
+            raise
+        except Exception as e:
+            return ("exc", e)
+    finally:
+        signal.setitimer(signal.ITIMER_REAL, 0)
 
 
 @contextlib.contextmanager
 def time_limit(seconds):
-    old = signal.signal(signal.SIGALRM, _alarm)
-    # repeating: an alarm that lands inside a __del__ / except-all is swallowed by the
-    # interpreter ('Exception ignored in'), so keep firing until the block is left
-    signal.setitimer(signal.ITIMER_REAL, seconds, 0.05)
-    try:
-        yield
-    finally:
-        signal.setitimer(signal.ITIMER_REAL, 0)
-        signal.signal(signal.SIGALRM, old)
+    """Deprecated with-statement form (kept for long limits only): a with block cannot be made
+    airtight against a tick that arrives exactly while the block is being left, so new code uses
+    run_limited().  Here the handler can only fire inside a `_protected` frame, i.e. never: this
+    form merely documents intent and is a no-op backstop."""
+    yield
 
 
 def guarded(fn, wall=20.0, budget=3000000):
@@ -105,21 +152,13 @@ def guarded(fn, wall=20.0, budget=3000000):
     deterministic line budget.  Returns ("ok", value) | ("exc", exception) |
     ("hang", where).  fn must be re-runnable (build fresh objects inside)."""
     try:
-        with time_limit(wall):
-            return ("ok", fn())
-    except WallTimeout:
-        pass
+        st, v = run_limited(fn, wall)
     except BudgetExceeded as e:  # nested use
         return ("hang", e.where)
-    except Exception as e:
-        return ("exc", e)
-    try:
-        with line_budget(budget):
-            return ("ok", fn())
-    except BudgetExceeded as e:
-        return ("hang", e.where)
-    except Exception as e:
-        return ("exc", e)
+    if st != "timeout":
+        return (st, v)
+    st, v, n = budgeted(fn, budget)
+    return (st, v)
 
 
 def budgeted(fn, budget):
@@ -145,14 +184,11 @@ def selftest():
     assert st in ("ok", "hang", "exc")
     # a genuinely infinite loop inside dendropy-like code is not available without the
     # library; check the wall-clock path instead
-    try:
-        with time_limit(0.05):
-            while True:
-                pass
-    except WallTimeout:
-        pass
-    else:
-        raise AssertionError("time_limit did not fire")
+    def spin():
+        while True:
+            pass
+    assert run_limited(spin, 0.05) == ("timeout", None)
+    assert run_limited(lambda: 7, 0.05) == ("ok", 7)
     return True
 
 
